@@ -43,10 +43,9 @@ static void ra_checks(It b, It e, const std::vector<int>& v, std::string& flags,
   if (n > 0) { It l = e; It old = l--; if (!(old == e) || *l != v[n - 1]) fail("--post"); }
 }
 
-template<int N>
-static void run(const std::vector<std::string>& ops)
+template<class AL>
+static void run_t(const std::vector<std::string>& ops)
 {
-  using AL = Dune::ArrayList<int, N>;
   AL al;
   typename AL::iterator held; bool has = false;
   for (const auto& o : ops) {
@@ -101,9 +100,13 @@ static void run(const std::vector<std::string>& ops)
   }
 }
 
+template<int N> static void run(const std::vector<std::string>& ops) { run_t<Dune::ArrayList<int, N> >(ops); }
+
 int main(int argc, char** argv)
 {
   return c11::main_loop(argc, argv, "al", [](int n, const std::vector<std::string>& ops) {
+    // the default template argument N (re-read from the source into Params_gen.v) is exercised through ArrayList<int> itself
+    if (n == (int) Dune::ArrayList<int>::chunkSize_ && n > 16) { run_t<Dune::ArrayList<int> >(ops); return; }
     switch (n) {
       case 0: run<0>(ops); break;  case 1: run<1>(ops); break;  case 2: run<2>(ops); break;
       case 3: run<3>(ops); break;  case 4: run<4>(ops); break;  case 5: run<5>(ops); break;
